@@ -1580,8 +1580,22 @@ main(int argc, char *argv[])
                                 (void)ps_latlink_iter_link(li);
                         (void)ps_latnode_word(dag, ps_latnode_iter_node(ni));
                     }
+                    { /* a public traversal in each direction taken a few links far and abandoned, before anything else walks */
+                        latlink_t *tl = lattice_traverse_edges(dag, NULL, NULL);
+                        int k;
+                        for (k = 0; tl && k < 1 + (int)y; ++k)
+                            tl = lattice_traverse_next(dag, NULL);
+                    }
                     if (lattice_bestpath(dag, 0.05f))
                         (void)lattice_posterior(dag, 0.05f);
+                    {
+                        latlink_t *tl = lattice_reverse_edges(dag, NULL, NULL);
+                        int k;
+                        for (k = 0; tl && k < 2; ++k)
+                            tl = lattice_reverse_next(dag, NULL);
+                        if (lattice_bestpath(dag, 0.05f))
+                            (void)lattice_posterior(dag, 0.05f);
+                    }
                     if (x >= 2) { /* 2, 3: prune by posterior (mildly, harshly), use what is left, prune again */
                         int round;
                         for (round = 0; round < 2; ++round) {
@@ -1679,6 +1693,18 @@ main(int argc, char *argv[])
                             break;
                         }
                         w = alignment_iter_next(w);
+                    }
+                    if (!x) { /* each level once more as ONE flat sequence, naming every entry through the same iterator */
+                        int lv;
+                        for (lv = 0; lv < 3; ++lv) {
+                            alignment_iter_t *it = lv == 0 ? alignment_words(al) : lv == 1 ? alignment_phones(al) : alignment_states(al);
+                            for (; it; it = alignment_iter_next(it)) {
+                                int st0, du;
+                                (void)alignment_iter_name(it);
+                                (void)alignment_iter_seg(it, &st0, &du);
+                                (void)alignment_iter_name(it);
+                            }
+                        }
                     }
                 }
             } else if (!strcmp(fn, "json")) {
